@@ -1,1 +1,36 @@
-From Emd Require Import Base.Prelude Model.H5 Model.Emd Model.Reader.
+(* C19 -- saving does not disturb the caller's objects and is repeatable.  Statements only.
+   The effect model (Model/Effects.v) states what write() does to the live objects after the repairs (temporary
+   root removed in a finally, Metadata names restored, list iterated).  Theorems: the PUBLIC view of every object
+   (identity, kind, name, root, metadata, children -- everything but the private stored path) is unchanged by a
+   save of an unrooted node and by a list save, whether the save succeeds or raises; the node is still unrooted.
+   Repeatability: write_node / write_list are functions (same input, same fresh slot => same content; the UUID is
+   the only header field not determined by the input, abstracted as "<uuid>").  The tie of the effect model to the
+   code is the harness's before/after snapshots of the live objects on every save (oracle). *)
+From Emd Require Import Base.Prelude Model.Forest Model.Effects Proofs.P19.
+From Emd Require Model.H5 Model.Emd Model.EmdList.
+
+Theorem C19_unrooted_save_leaves_public_view_unchanged :
+  forall F x ok, (forall t, In t F -> tid t = x -> tsroot t = None) ->
+    map public (save_unrooted F x ok) = map public F.
+Proof. exact public_save_unrooted. Qed.
+Print Assumptions C19_unrooted_save_leaves_public_view_unchanged.
+
+Theorem C19_unrooted_node_is_still_unrooted :
+  forall F x ok t, In t (save_unrooted F x ok) -> tid t = x -> tsroot t = None.
+Proof. exact save_unrooted_still_unrooted. Qed.
+Print Assumptions C19_unrooted_node_is_still_unrooted.
+
+Theorem C19_list_save_leaves_public_view_unchanged :
+  forall items F ok, (forall x t, In x items -> In t F -> tid t = x -> tsroot t = None) ->
+    map public (save_list F items ok) = map public F.
+Proof. exact public_save_list. Qed.
+Print Assumptions C19_list_save_leaves_public_view_unchanged.
+
+(* non-vacuity *)
+Example C19_hypotheses_satisfiable :
+  let F := [new_root 0 "r" []; new_node 1 "u" [("m", MD 0 "renamed" 5%Z)]] in
+  (forall t, In t F -> tid t = 1 -> tsroot t = None) /\ map public (save_unrooted F 1 false) = map public F
+  /\ save_unrooted F 1 true <> F.
+Proof.
+  cbv zeta. split; [intros t [<-|[<-|[]]]; cbn; [discriminate|reflexivity]|]. split; [reflexivity|]. cbn. discriminate.
+Qed.
